@@ -29,7 +29,11 @@ type splice struct {
 	del  int // bytes to delete at off (for the ListenAndServe rewrite)
 }
 
-var skipFuncs = map[string]bool{"Define": true, "DefineGadget": true}
+// Functions that never get yields: circuit definitions (they run at compile time) and
+// prometheus.Collector.Describe, which the registry calls while holding its write lock (a task
+// parked there would make the next Gather block on a library mutex, which testing/synctest does not
+// count as durably blocked).
+var skipFuncs = map[string]bool{"Define": true, "DefineGadget": true, "Describe": true}
 
 func main() {
 	if len(os.Args) != 2 {
